@@ -709,6 +709,11 @@ def run_e(prop, tier, n_st=350, n_pool=350, dfs_budget=500, long_runs=30):
             be_fails, be_runs = sf + be_fails, be_runs + sr
         for msg in be_fails[:5]:
             failures.append(dict(kind='schedule', summary=msg, config=dict(kind='backend'), got_from_impl=msg))
+    if prop == 'C05':
+        cf, cr = backend_cancellation(ld, r, tier)
+        be_runs += cr
+        for msg in cf[:5]:
+            failures.append(dict(kind='schedule', summary=msg, config=dict(kind='backend_cancellation'), got_from_impl=msg))
     if prop == 'C07':
         ra_fails, ra_runs = dataset_level_readahead(ld, r, tier)
         be_runs += ra_runs
@@ -1029,6 +1034,65 @@ def shape_checks(ld, r, tier):
 class BTupFn:
     def __call__(self, x):
         return (x[0], x[1], 1)
+
+
+def _slow_mark(x, path=None):
+    import time
+    with open(path, 'a') as fh:
+        fh.write(f'{x}\n')
+    time.sleep(0.25)
+    return x
+
+
+def backend_cancellation(ld, r, tier):
+    """C05 on the real executors: after the consumer stopped early (close / dropped iterator) the computations that had not
+    started are cancelled - at most the delivered ones plus buffer and workers in flight ever start - and control comes back"""
+    import functools, tempfile, time, warnings
+    fails, runs = [], 0
+    n = 16
+    with warnings.catch_warnings():
+        warnings.simplefilter('ignore')
+        for be in (['t', 'dill_mp', 'concurrent_mp'] if tier == 'quick' else ['t', 'dill_mp', 'concurrent_mp', 'mp', 'multiprocessing']):
+            for how in ('close', 'drop'):
+                for api in ('parmap', 'prefetch'):
+                    w, b, k = 1, 8, 1          # one worker, eight submitted computations: when the first result arrives one is running, the others pending
+                    # (a process pool has already handed max_workers + 1 further calls to its call queue: those cannot be cancelled any more)
+                    slack = 1 if be in ('t', 'thread') else 4
+                    if tier == 'quick' and (how, api) not in (('close', 'parmap'), ('drop', 'prefetch')):
+                        continue
+                    fd, path = tempfile.mkstemp(prefix='c05_')
+                    os.close(fd)
+                    fn = functools.partial(_slow_mark, path=path)
+                    src = ld.new(list(range(n)))
+                    runs += 1
+                    t0 = time.time()
+                    try:
+                        d = src.map(fn, num_workers=w, buffer_size=b, backend=be) if api == 'parmap' else src.map(fn).prefetch(w, b, backend=be)
+                        it = iter(d)
+                        got = [next(it) for _ in range(k)]
+                        if how == 'close':
+                            it.close()
+                        else:
+                            del it
+                            common.tick()
+                            import gc
+                            gc.collect()
+                        took = time.time() - t0
+                        time.sleep(1.6)
+                        started = len(open(path).read().split())
+                    except Exception as e:
+                        fails.append(f'backend {be} {api}: early {how} after {k} examples raised {type(e).__name__}: {e}')
+                        continue
+                    finally:
+                        try: os.remove(path)
+                        except OSError: pass
+                    if got != list(range(k)):
+                        fails.append(f'backend {be} {api}: first examples {got}')
+                    if started > k + w + slack:
+                        fails.append(f'backend {be} {api}: after the consumer stopped ({how}) having received {k} examples, {started} of {n} computations were executed (not cancelled); buffer_size={b}, workers={w}')
+                    if took > 4.0:
+                        fails.append(f'backend {be} {api}: early {how} took {took:.1f}s to return control')
+    return fails, runs
 
 
 # ------------------------------------------------------------------ read-ahead through the Dataset API (OS schedule, stalled consumer)
